@@ -62,3 +62,18 @@ fix_tmp_good (mp_ptr rp, mp_srcptr ap, mp_size_t n)
   TMP_FREE;
   return 1;
 }
+
+/* zero-size: the second block of the pair is asked for 0 limbs when no padding is needed */
+void
+fix_tmp_zero (mp_ptr rp, mp_srcptr ap, mp_size_t n, mp_size_t zeros)
+{
+  mp_ptr xp, yp;
+  TMP_DECL;
+  TMP_MARK;
+  TMP_ALLOC_LIMBS_2 (xp, n, yp, (zeros > 0 ? n + zeros : 0));
+  MPN_COPY (xp, ap, n);
+  if (zeros > 0)
+    MPN_ZERO (yp, n + zeros);
+  MPN_COPY (rp, xp, n);
+  TMP_FREE;
+}
